@@ -112,3 +112,43 @@ Fixpoint canonical_spelling (esc : bool) (t : tjson) : bool :=
       forallb (fun kv => bseq (quote esc (unquote (fst kv))) (fst kv) && canonical_spelling esc (snd kv)) ms
   | _ => true
   end.
+
+(* ---- nesting depth of decoded values, and the side condition of the copy depth check ----
+   (definitions only; the facts about them are in Depth.v) *)
+Fixpoint odepth (j : ojson) : N :=
+  match j with
+  | OArr l => 1 + (fix go (l : list ojson) : N := match l with [] => 0 | x :: r => N.max (odepth x) (go r) end) l
+  | OObj ms => 1 + (fix go (m : list (bytes * ojson)) : N := match m with [] => 0 | kv :: r => N.max (odepth (snd kv)) (go r) end) ms
+  | _ => 0
+  end.
+
+
+(* ---- the side condition on the reference run ---- *)
+(* the operation is not a copy whose source value, as the reference resolves it in doc, nests
+   deeper than the decoder accepts *)
+Definition copy_fits (d : dialect) (doc : ojson) (o : rop) : bool :=
+  match rkind o with
+  | OpCopy =>
+      match ptr_tokens (rfrom o) with
+      | Some ftoks =>
+          match get_at d ftoks doc with
+          | Rfc6902.Ok v => (odepth v <=? max_depth)%N
+          | Rfc6902.Fail _ => true
+          end
+      | None => true
+      end
+  | _ => true
+  end.
+
+(* copy_fits at every operation the reference run reaches (it stops at the first failure) *)
+Fixpoint copies_fit (d : dialect) (doc : ojson) (p : list rop) : bool :=
+  match p with
+  | [] => true
+  | o :: rest =>
+      copy_fits d doc o &&
+      match rfc_step d doc o with
+      | Rfc6902.Ok doc' => copies_fit d doc' rest
+      | Rfc6902.Fail _ => true
+      end
+  end.
+
